@@ -1,5 +1,19 @@
 // Kani harnesses for src/internal/column.rs (child module `vk`)
 use super::*;
+
+/// harness helper: take the Ok value of an io::Result without pulling the
+/// Debug/Drop machinery of io::Error into the model (unwrap() would)
+pub fn must<T>(r: std::io::Result<T>) -> T {
+    match r {
+        Ok(x) => x,
+        Err(e) => {
+            core::mem::forget(e);
+            assert!(false, "expected Ok");
+            kani::assume(false);
+            unreachable!()
+        }
+    }
+}
 use crate::internal::stringpool::StringRef;
 use crate::internal::value::ValueRef;
 
@@ -21,6 +35,8 @@ fn used(before: usize, after: usize) -> u64 {
 
 // @harness name=cell_int16_roundtrip kind=Pc tier=quick props=C01,C08 desc="Int16 column: every valid value n in (-32768, 32767] and null: write_value emits exactly width()=2 bytes, they are the offset-binary little-endian encoding (n+0x8000; 0 for null), and read_value returns the same value"
 #[kani::proof]
+#[kani::unwind(3)]
+#[kani::stub(alloc::fmt::format, stub_format)]
 fn cell_int16_roundtrip() {
     let long: bool = kani::any();
     let ct = ColumnType::Int16;
@@ -51,11 +67,13 @@ fn cell_int16_roundtrip() {
     let mut r: &[u8] = &buf[..2];
     let back = ct.read_value(&mut r, long);
     assert!(r.is_empty());
-    assert!(back.unwrap() == v);
+    assert!(must(back) == v);
 }
 
 // @harness name=cell_int32_roundtrip kind=Pc tier=quick props=C01,C08 desc="Int32 column: every n > i32::MIN and null: 4 bytes, offset-binary (n+2^31) little-endian, 0 = null, read_value inverts write_value"
 #[kani::proof]
+#[kani::unwind(3)]
+#[kani::stub(alloc::fmt::format, stub_format)]
 fn cell_int32_roundtrip() {
     let long: bool = kani::any();
     let ct = ColumnType::Int32;
@@ -85,11 +103,13 @@ fn cell_int32_roundtrip() {
     let mut r: &[u8] = &buf[..4];
     let back = ct.read_value(&mut r, long);
     assert!(r.is_empty());
-    assert!(back.unwrap() == v);
+    assert!(must(back) == v);
 }
 
 // @harness name=cell_int_read_any_bytes kind=Pc tier=quick props=C02,C09 desc="reader alone against the format: any 0..4 input bytes, Int16/Int32: never panics; short input is an error; otherwise 0 is null and w is Int(w - 2^(bits-1)), consuming exactly the column width"
 #[kani::proof]
+#[kani::unwind(3)]
+#[kani::stub(alloc::fmt::format, stub_format)]
 fn cell_int_read_any_bytes() {
     let long: bool = kani::any();
     let ct = any_coltype_int();
@@ -103,7 +123,7 @@ fn cell_int_read_any_bytes() {
         assert!(got.is_err());
     } else {
         assert!(len - r.len() == width);
-        let v = got.unwrap();
+        let v = must(got);
         match ct {
             ColumnType::Int16 => {
                 let w = u16::from_le_bytes([buf[0], buf[1]]);
@@ -130,6 +150,7 @@ fn cell_int_read_any_bytes() {
 
 // @harness name=cell_str_roundtrip kind=Pc tier=quick props=C01,C02,C08,C09 desc="Str column: any 3 input bytes, both reference widths: read_value never panics, 0 is null, otherwise the 1-based little-endian reference; writing the value back emits exactly width() bytes equal to the input"
 #[kani::proof]
+#[kani::unwind(3)]
 #[kani::stub(alloc::fmt::format, stub_format)]
 fn cell_str_roundtrip() {
     let long: bool = kani::any();
@@ -139,7 +160,7 @@ fn cell_str_roundtrip() {
     assert!(width == if long { 3 } else { 2 });
     let buf: [u8; 3] = kani::any();
     let mut r: &[u8] = &buf[..width];
-    let v = ct.read_value(&mut r, long).unwrap();
+    let v = must(ct.read_value(&mut r, long));
     assert!(r.is_empty());
     let number = buf[0] as i32 | (buf[1] as i32) << 8 | if long { (buf[2] as i32) << 16 } else { 0 };
     match v {
@@ -165,13 +186,14 @@ fn cell_str_roundtrip() {
 
 // @harness name=cell_type_mismatch_is_error kind=Pc tier=quick props=C08,C09 desc="writing an integer into a string column or a string reference into an integer column is an error (no bytes of a wrong width are emitted, no panic)"
 #[kani::proof]
+#[kani::unwind(3)]
 #[kani::stub(alloc::fmt::format, stub_format)]
 fn cell_type_mismatch_is_error() {
     let long: bool = kani::any();
     let refbytes: [u8; 2] = kani::any();
     kani::assume(refbytes[0] != 0 || refbytes[1] != 0);
     let mut rr: &[u8] = &refbytes;
-    let sref = StringRef::read(&mut rr, false).unwrap().unwrap();
+    let sref = must(StringRef::read(&mut rr, false)).unwrap();
     let mut out = [0u8; 4];
     let mut w: &mut [u8] = &mut out;
     if kani::any() {
@@ -224,21 +246,22 @@ fn empty_builder() -> ColumnBuilder {
 
 // @harness name=typeword_from_bitfield_total kind=Pc tier=quick props=C02,C09 desc="ColumnType::from_bitfield / ColumnBuilder::with_bitfield on every i32 type word: no panic; string bit -> Str(low byte); else size 4 -> Int32, 2 or 1 -> Int16, anything else is an error; flags are the documented bits"
 #[kani::proof]
+#[kani::unwind(3)]
 #[kani::stub(alloc::fmt::format, stub_format)]
 fn typeword_from_bitfield_total() {
     let bits: i32 = kani::any();
     let r = empty_builder().with_bitfield(bits);
     let size = bits & 0xff;
     if bits & 0x800 != 0 {
-        let c = r.unwrap();
+        let c = must(r);
         assert!(c.coltype == ColumnType::Str(size as usize));
         assert!(c.is_nullable == (bits & 0x1000 != 0));
         assert!(c.is_primary_key == (bits & 0x2000 != 0));
         assert!(c.is_localizable == (bits & 0x200 != 0));
     } else if size == 4 {
-        assert!(r.unwrap().coltype == ColumnType::Int32);
+        assert!(must(r).coltype == ColumnType::Int32);
     } else if size == 2 || size == 1 {
-        assert!(r.unwrap().coltype == ColumnType::Int16);
+        assert!(must(r).coltype == ColumnType::Int16);
     } else {
         assert!(r.is_err());
     }
@@ -246,6 +269,7 @@ fn typeword_from_bitfield_total() {
 
 // @harness name=typeword_roundtrip kind=Pc tier=quick props=C06,C01 desc="for every column definition (Int16, Int32, Str(w) for every usize w; all flag combinations; category none/Binary/other): either the definition is refused as not storable, or Column::bitfield() fits the Int16 catalog cell and with_bitfield(bitfield()) gives back the same type, width and flags"
 #[kani::proof]
+#[kani::unwind(3)]
 #[kani::stub(alloc::fmt::format, stub_format)]
 fn typeword_roundtrip() {
     let coltype = match kani::any::<u8>() % 3 {
@@ -266,7 +290,7 @@ fn typeword_roundtrip() {
     let bits = col.bitfield();
     // the word is stored in the Int16 column _Columns.Type, whose valid values are (-32768, 32767]
     assert!(bits > i16::MIN as i32 && bits <= i16::MAX as i32);
-    let back = empty_builder().with_bitfield(bits).unwrap();
+    let back = must(empty_builder().with_bitfield(bits));
     assert!(back.coltype == coltype);
     assert!(back.is_localizable == loc);
     assert!(back.is_nullable == nul);
